@@ -1,6 +1,7 @@
 import AFV.Driver.Proto
+import AFV.Driver.NestJson
 namespace AFV.Driver.C19
-open Lean AFV.Proto
+open Lean AFV.Proto AFV.Driver.NestJson
 
 /-- `|b − a·k| ≤ tol · max(|b|, |a·k|)` with k = kn/kd > 0, tol = tn/td, over exact integers. -/
 def eqScaled (a b kn kd tn td : Int) : Bool :=
@@ -8,8 +9,10 @@ def eqScaled (a b kn kd tn td : Int) : Bool :=
   let m := max (b * kd).natAbs (a * kn).natAbs -- max(|b|, |a k|) · kd
   lhs * td.natAbs ≤ tn.natAbs * m
 
+/-- ops: `eqScaled` (mapper stream) and `eval` (model stream: as C05, the harness scales the inputs itself). -/
 def handle (req : Json) : Json :=
   match (field? req "op").bind getStr? with
+  | some "eval" => evalReply req
   | some "eqScaled" =>
     match (field? req "a").bind getInt?, (field? req "b").bind getInt?, (field? req "k_num").bind getInt?,
           (field? req "k_den").bind getInt?, (field? req "tol_num").bind getInt?, (field? req "tol_den").bind getInt? with
